@@ -21,6 +21,10 @@ def g_alphabet(dom, two_defs):
            "LF:%s:%s" % (enc_rule(["alice"]), enc_rule(["alice"])), A("g", "g", ["carl", "carl"] + (["d1"] if dom else [])),
            R("g", "g", ["carl", "carl"] + (["d1"] if dom else [])), R("g", "g", ["nobody", "nothing"] + (["d1"] if dom else [])),
            A("p", "p", p_rules(dom)[0])]
+    # set_role_manager with a replacement manager that already HOLDS links (its own, or those of another enforcer it was taken
+    # from): the links must be rebuilt from this enforcer's stored rules only (auto-build is on in all of these histories)
+    al += ["SRP:10:" + enc_rules([gr[3], gr[4], ["carl", "admin"] + (["d1"] if dom else [])]),
+           "SRP:10:" + enc_rules([["alice", "admin"], ["bob", "alice"]] + ([["bob", "admin", "d2"]] if dom else []))]
     if dom:
         # the SAME (user, role) pairs in a second domain: a link in d1 must come and go with ITS rule only
         for r in gr[:2]:
@@ -115,7 +119,7 @@ def generate(tier, seed):
             dist["exhaustive"] += 1
     # p/p2 + g/g2 with names shared across the sibling types
     sp = multi_spec()
-    al = [o for o in multi_alphabet() if o.split(":")[1:2] == ["g"] or o[:2] in ("dr", "du", "CL")] + ["LD", "SR:10"]
+    al = [o for o in multi_alphabet() if o.split(":")[1:2] == ["g"] or o[:2] in ("dr", "du", "CL")] + ["LD", "SR:10", "SRP:10:" + enc_rules([["bob", "admin"], ["data2", "res"], ["alice", "ops"]])]
     qs = [Q_e(["alice", "data1", "read"]), Q_e(["bob", "data2", "read"]), Q_e(["ops", "res", "read"]), "?rf:alice:-", "?uf:ops:-", "?ir:bob:-",
           "?hl:data1:res:-", "?hl:alice:admin:-"]
     for k in (1, 2):
